@@ -191,6 +191,7 @@ def coq_eval(imports, exprs, tag, shard=250, timeout=900):
 	pending = list(names)
 	running = []
 	failed = None
+	statuses = {}
 	while pending or running:
 		while pending and len(running) < NCPU:
 			name = pending.pop(0)
@@ -203,11 +204,14 @@ def coq_eval(imports, exprs, tag, shard=250, timeout=900):
 		if proc.returncode != 0:
 			failed = (name, out)
 		results[name] = out
+		statuses[name] = proc.returncode
 	del procs
 	single = {}
 	for k, name in enumerate(names):
 		out = results[name]
-		if 'Eval vm_compute' in out or '= [' in out:
+		expected_here = len(exprs[k * shard:(k + 1) * shard])
+		complete = statuses.get(name) == 0 and len(_STRING_RE.findall(out)) == expected_here
+		if complete:
 			continue
 		if re.search(r'^Error:(?! Stack overflow| Out of memory)', out, re.M) and 'Stack overflow' not in out and 'Out of memory' not in out:
 			raise RuntimeError(f'model evaluation failed for {work / (name + ".v")}:\n{out[-3000:]}')
